@@ -420,7 +420,15 @@ func c11Custom(ctx *Ctx) *Extra {
 						ex.Inconclusive = append(ex.Inconclusive, fmt.Sprintf("race model for %s did not reproduce under the race detector (%s %s)", label, rr.pair, detail))
 					}
 				} else {
-					ex.Inconclusive = append(ex.Inconclusive, fmt.Sprintf("race model among worker goroutines (%s): %s (no native replay harness for this scenario)", sc.name, rr.pair))
+					rf := &ReplayFile{Property: "C11", Harness: "displayp3.VerifHarness_C11_NativeWorkers", Pkg: "displayp3", Func: "VerifHarness_C11_NativeWorkers", Kind: "race", Label: "data race among worker goroutines", Detail: rr.pair, Expect: "fail",
+						Inputs: []ReplayInput{{Name: "choice_1", Tag: "choice", Bits: fmt.Sprintf("%d", lg.which)}}}
+					f := writeReplay(rf)
+					res, err := NativeReplay(ctx.Prog, "displayp3", []string{f}, true)
+					if err == nil && res[f] != nil && (len(res[f].Failures) > 0 || res[f].Panic != "") {
+						ex.Failures = append(ex.Failures, fmt.Sprintf("data race among the worker goroutines of TransformImageColor (destination kind %d)|%s|replay=%s", lg.which, rr.pair, f))
+					} else {
+						ex.Inconclusive = append(ex.Inconclusive, fmt.Sprintf("race model among worker goroutines (%s) did not reproduce under the race detector: %s", sc.name, rr.pair))
+					}
 				}
 			default:
 				ex.Inconclusive = append(ex.Inconclusive, "undecided scenario "+sc.name)
